@@ -186,25 +186,27 @@ func (db *DB) Delete(key []byte) {
 }
 
 func (db *DB) Get(key []byte) (kv.Entry, error) {
-	sstables := db.currentSSTables()
-
 	// First try to get from the memtables
 	v, err := db.mtables.Get(key)
 	if err == nil {
 		return v, nil
 	}
 
-	// Then try the SSTables
+	// Then try the SSTables. The table set must be read after the memtables: a
+	// concurrent flush moves entries from the memtables to the tables, so
+	// reading the source before the destination cannot miss them.
 	if err == kv.ErrNotFound {
-		return sstables.Get(key)
+		return db.currentSSTables().Get(key)
 	}
 
 	return nil, err
 }
 
 func (db *DB) ScanPrefix(prefix []byte, errOut *error) iter.Seq[kv.Entry] {
+	// Snapshot the memtables before the table set (see Get).
+	mtablesIter := db.mtables.ScanPrefix(prefix, errOut)
 	sstables := db.currentSSTables()
-	iters := []iter.Seq[kv.Entry]{db.mtables.ScanPrefix(prefix, errOut), sstables.ScanPrefix(prefix, errOut)}
+	iters := []iter.Seq[kv.Entry]{mtablesIter, sstables.ScanPrefix(prefix, errOut)}
 	return func(yield func(kv.Entry) bool) {
 		for entry := range kv.MergeEntries(iters) {
 			// Drop tombstones only after merging so that a delete in a newer
